@@ -51,3 +51,73 @@ C("mako.codegen:_Identifiers.visitCode",
            ("a <% %> block: what it assigns is local and handed on to defs called from the body",
             "implies(not node.ismodule, forall(lambda k: (k in self.locally_assigned) == (k in old(self.locally_assigned) or k in node_declared(node)), ty='Str') and forall(lambda k: (k in self.locally_declared) == (k in old(self.locally_declared) or k in node_declared(node)), ty='Str'))")],
   raises={}, props=["C04"], native_skip=True)
+
+CLASSES["Idents"].fields["argument_declared"] = parse_ty("Set[Str]")
+_SEP3 = ("not same(self.undeclared, self.declared) and not same(self.undeclared, self.locally_declared) and not same(self.declared, self.locally_declared) "
+         "and not same(self.argument_declared, self.undeclared) and not same(self.argument_declared, self.declared) and not same(self.argument_declared, self.locally_declared)")
+_DEMAND = "forall(lambda k: (k in self.undeclared) == (k in old(self.undeclared) or %s), ty='Str')" % _NEW_UNDECLARED
+_BIND = "forall(lambda k: (k in self.locally_declared) == (k in old(self.locally_declared) or k in node_declared(node)), ty='Str')"
+
+for _v in ("visitExpression", "visitControlLine", "visitIncludeTag"):
+    C("mako.codegen:_Identifiers." + _v, params={"self": "Idents", "node": "CodeNode"},
+      requires=[("separate-sets", _SEP3)],
+      modifies=["self.undeclared", "self.locally_declared", "fresh_heap('set:Str')"],
+      ensures=[("unbound-reads-demanded-from-the-context", _DEMAND), ("bindings-become-local", _BIND), ("declared-untouched", "self.declared == old(self.declared)")],
+      raises={}, props=["C04"], native_skip=True)
+
+C("mako.codegen:_Identifiers.visitTextTag", params={"self": "Idents", "node": "CodeNode"},
+  requires=[("separate-sets", _SEP3)],
+  modifies=["self.undeclared", "fresh_heap('set:Str')"],
+  loops={0: {"inv": [("undeclared-so-far", "forall(lambda k: (k in self.undeclared) == (k in pre(self.undeclared) or (in_prefix(_s0, _i0, k) and k != 'context' and k not in self.declared and k not in self.locally_declared)), ty='Str')", "P"),
+                     ("others-untouched", "self.declared == pre(self.declared) and self.locally_declared == pre(self.locally_declared)", "P")],
+             "modifies": ["self.undeclared", "fresh_heap('set:Str')"]}},
+  ensures=[("the filter names of <%text filter=...> are demanded from the context", _DEMAND),
+           ("nothing-bound", "self.locally_declared == old(self.locally_declared) and self.declared == old(self.declared)")],
+  raises={}, locals={"ident": "Str"}, props=["C04"], native_skip=True)
+
+C("mako.codegen:_Identifiers.visitPageTag", params={"self": "Idents", "node": "CodeNode"},
+  requires=[("separate-sets", _SEP3)],
+  modifies=["self.undeclared", "self.locally_declared", "self.argument_declared", "fresh_heap('set:Str')"],
+  loops={0: {"inv": [("arguments-so-far", "forall(lambda k: (k in self.argument_declared) == (k in pre(self.argument_declared) or in_prefix(_s0, _i0, k)), ty='Str')", "P"),
+                     ("others-untouched", "self.declared == pre(self.declared) and self.locally_declared == pre(self.locally_declared) and self.undeclared == pre(self.undeclared)", "P")],
+             "modifies": ["self.argument_declared"]}},
+  ensures=[("page-arguments-are-arguments-of-the-body", "forall(lambda k: (k in self.argument_declared) == (k in old(self.argument_declared) or k in node_declared(node)), ty='Str')"),
+           ("their-defaults-may-demand-names", _DEMAND)],
+  raises={}, locals={"ident": "Str"}, props=["C04"], native_skip=True)
+
+# ---- tags with children: structural induction over the parse tree (rule R3) -----------------------
+# induction hypothesis for visiting a child node: visitors only ever add to the four name sets
+CLASS("mako.parsetree:<child>", name="ChildNode", fields={})
+_MONO = ("forall(lambda k: implies(k in old(self_.undeclared), k in self_.undeclared) and implies(k in old(self_.locally_declared), k in self_.locally_declared) "
+         "and implies(k in old(self_.argument_declared), k in self_.argument_declared), ty='Str') and self_.declared == old(self_.declared)")
+ASSUME("mako.parsetree:<child>.accept_visitor", params={"self": "ChildNode", "self_": "Idents"},
+       modifies=["self_.undeclared", "self_.locally_declared", "self_.argument_declared", "heap('f:Idents.')", "heap('dval:Str~Any')", "heap('ddom:Str~Any')", "fresh_heap('set:Str')"],
+       ensures=[("visitors-only-add-names (induction hypothesis)", _MONO),
+                ("same-sets", "same(self_.undeclared, old(self_.undeclared)) and same(self_.locally_declared, old(self_.locally_declared)) and same(self_.argument_declared, old(self_.argument_declared)) and same(self_.declared, old(self_.declared))")],
+       raises={"*": {}},
+       note="R3: each child node's visit method is one of the visitors verified here (or raises CompileException)")
+CLASS("mako.parsetree:<tag>", name="TagLike", bases=["CodeNode"], fields={"nodes": "List[ChildNode]", "is_anonymous": "Bool", "is_block": "Bool", "funcname": "Str", "name": "Str"})
+CLASSES["Idents"].fields["node"] = parse_ty("Any")
+
+_DEMAND_AT_LEAST = ("forall(lambda k: implies(k in old(self.undeclared) or %s, k in self.undeclared), ty='Str')" % _NEW_UNDECLARED)
+_ARGS_AT_LEAST = "forall(lambda k: implies(k in old(self.argument_declared) or k in node_declared(node), k in self.argument_declared), ty='Str')"
+
+C("mako.codegen:_Identifiers.visitCallTag", params={"self": "Idents", "node": "TagLike"},
+  requires=[("separate-sets", _SEP3)],
+  modifies=["self.undeclared", "self.locally_declared", "self.argument_declared", "heap('f:Idents.')", "heap('dval:Str~Any')", "heap('ddom:Str~Any')", "fresh_heap('set:Str')"],
+  loops={0: {"inv": [("undeclared-so-far", "forall(lambda k: (k in self.undeclared) == (k in pre(self.undeclared) or (in_prefix(_s0, _i0, k) and k != 'context' and k not in self.declared and k not in self.locally_declared)), ty='Str')", "P"),
+                     ("others-untouched", "self.declared == pre(self.declared) and self.locally_declared == pre(self.locally_declared) and self.argument_declared == pre(self.argument_declared)", "P")],
+             "modifies": ["self.undeclared", "fresh_heap('set:Str')"]},
+         1: {"inv": [("arguments-so-far", "forall(lambda k: (k in self.argument_declared) == (k in pre(self.argument_declared) or in_prefix(_s1, _i1, k)), ty='Str')", "P"),
+                     ("others-untouched", "self.declared == pre(self.declared) and self.locally_declared == pre(self.locally_declared) and self.undeclared == pre(self.undeclared)", "P")],
+             "modifies": ["self.argument_declared"]},
+         2: {"inv": [("nothing-lost", "forall(lambda k: implies(k in pre(self.undeclared), k in self.undeclared) and implies(k in pre(self.argument_declared), k in self.argument_declared) and implies(k in pre(self.locally_declared), k in self.locally_declared), ty='Str') and self.declared == pre(self.declared)", "P"),
+                     ("same-sets", "same(self.undeclared, pre(self.undeclared)) and same(self.argument_declared, pre(self.argument_declared)) and same(self.locally_declared, pre(self.locally_declared)) and same(self.declared, pre(self.declared))", "P")],
+             "modifies": ["self.undeclared", "self.locally_declared", "self.argument_declared", "heap('f:Idents.')", "heap('dval:Str~Any')", "heap('ddom:Str~Any')", "fresh_heap('set:Str')"]},
+         3: {"inv": [("undeclared-so-far", "forall(lambda k: (k in self.undeclared) == (k in pre(self.undeclared) or (in_prefix(_s3, _i3, k) and k != 'context' and k not in self.declared and k not in self.locally_declared)), ty='Str')", "P"),
+                     ("others-untouched", "self.declared == pre(self.declared) and self.locally_declared == pre(self.locally_declared) and self.argument_declared == pre(self.argument_declared)", "P")],
+             "modifies": ["self.undeclared", "fresh_heap('set:Str')"]}},
+  ensures=[("the call expression's unbound names are demanded from the context, in the calling scope and in the body's", _DEMAND_AT_LEAST),
+           ("seen from outside, a call with content binds nothing", "implies(not same(node, self.node), %s and self.argument_declared == old(self.argument_declared) and self.locally_declared == old(self.locally_declared))" % _DEMAND),
+           ("inside its body, the names in its args= are arguments", "implies(same(node, self.node), %s)" % _ARGS_AT_LEAST)],
+  raises={"*": {}}, locals={"ident": "Str", "n": "ChildNode"}, props=["C04"], native_skip=True)
